@@ -4,16 +4,36 @@ pub struct IgnoreAsmIstructions;
 impl TokenIgnorer for IgnoreAsmIstructions {
     fn ignore_tokens(
         &self,
-        (_tokens, lines): (&[Token], &[LogicalLine]),
+        (tokens, lines): (&[Token], &[LogicalLine]),
         token_marker: &mut TokenMarker,
     ) {
+        let is_conditional_directive = |token: &usize| {
+            matches!(
+                tokens.get(*token).map(Token::get_token_type),
+                Some(TokenType::ConditionalDirective(_))
+            )
+        };
         lines
             .iter()
             .filter(|line| line.get_line_type() == LogicalLineType::AsmInstruction)
             .for_each(|line| {
                 line.get_tokens().iter().for_each(|token| {
                     token_marker.mark(*token);
-                })
+                });
+                // Conditional directives are on lines of their own. The ones inside or next to
+                // an instruction, and the tokens they exclude, are part of the asm text too.
+                if let (Some(&first), Some(&last)) =
+                    (line.get_tokens().first(), line.get_tokens().last())
+                {
+                    let before = (0..first).rev().take_while(is_conditional_directive);
+                    let after = (last..).skip(1).take_while(is_conditional_directive);
+                    (first..=last)
+                        .chain(before)
+                        .chain(after)
+                        .for_each(|token| {
+                            token_marker.mark(token);
+                        });
+                }
             });
     }
 }
